@@ -276,6 +276,11 @@ func (rv *PostingsList) read(postingsOffset uint64, d *Dictionary) error {
 		return rv.init1Hit(postingsOffset)
 	}
 
+	// "general" encoding: forget any 1-hit state left over from a previous
+	// use of this (reused) postings list, e.g. by the dictionary iterator
+	rv.docNum1Hit = 0
+	rv.normBits1Hit = 0
+
 	// read the location of the freq/norm details
 	var n uint64
 	var read int
